@@ -62,7 +62,7 @@ def oracle(ctx, cases):
 
 def run(ctx):
     runner.prove(ctx, MODULE, THEOREMS, FILES)
-    cases = substcorr.batch(ctx, ctx.n(90, 700), customs=False) + substcorr.open_dict_any_cases(ctx, ctx.n(150, 1500)) + substcorr.list_window_cases(ctx) + substcorr.untyped_edge_cases(ctx) + substcorr.untyped_zoo_cases(ctx) + substcorr.defaulting_dict_subst_cases(ctx) + substcorr.subclass_and_degenerate_cases(ctx) + substcorr.relaxed_marker_position_cases(ctx) + substcorr.float_precision_cases(ctx) + substcorr.many_errors_cases(ctx) + substcorr.list_partial_dict_cases(ctx)
+    cases = substcorr.batch(ctx, ctx.n(90, 700), customs=False) + substcorr.open_dict_any_cases(ctx, ctx.n(150, 1500)) + substcorr.list_window_cases(ctx) + substcorr.untyped_edge_cases(ctx) + substcorr.contains_scan_cases(ctx) + substcorr.untyped_zoo_cases(ctx) + substcorr.defaulting_dict_subst_cases(ctx) + substcorr.subclass_and_degenerate_cases(ctx) + substcorr.relaxed_marker_position_cases(ctx) + substcorr.float_precision_cases(ctx) + substcorr.many_errors_cases(ctx) + substcorr.list_partial_dict_cases(ctx)
     # tight scalar corpus: bounds coinciding with the substituted value
     for s, w in valcases.scalar_corpus():
         if valcases._size(w) > 200:
